@@ -440,14 +440,16 @@ example : optimize [(.loadName MAGICAL_DUMP_VAR, ["s"]), (.loadAttr "a", ["t"]),
 /-! ### The semantic hypotheses are satisfiable -/
 
 /-- A tiny instance: values are numbers, 0 is undefined, the variable `x` holds 1 and every other
-variable 14, attribute access decrements (so the chain eventually reaches a field holding undefined). -/
+variable 14, even values are "safe", escaping adds 1000, attribute access decrements (so the chain eventually reaches a field holding undefined). -/
 def exEnv : Env Nat (List Nat) where
   undef := 0
   isUndef v := v == 0
   getValue _ n := if n = "x" then 1 else 14
   dumpContext _ := 99
   getAttr v _ := if v = 0 then none else some (v - 1)
-  write v s := some (v :: s)
+  isSafe v := v % 2 == 0
+  autoescape := true
+  emit esc v s := some ((if esc then 1000 + v else v) :: s)
 
 example : exEnv.isUndef exEnv.undef = true := rfl
 example : ∀ v a, exEnv.isUndef v = true → exEnv.getAttr v a = none := by
@@ -496,11 +498,12 @@ example : (match run exSem [(.loadName "y", ["s0"]), (.jumpIfFalseOrPop 3, []),
     (.loadPath ["x", "k"], ["s1", "s2"]), (.writeTop, [])] 4 0 ⟨[], [], []⟩ with
     | .err => true | _ => false) = true := by decide
 
-/-- and a run that writes: `{{ y.k }}` writes 13 on both sides -/
+/-- and a run that writes: `{{ y.k }}` — the root `y` = 14 is "safe", the leaf 13 is not: the
+escape decision is taken on the leaf, on both sides (13 goes through the escape function) -/
 example : (match run exSem [(.loadName "y", ["s0"]), (.loadAttr "k", ["s1"]), (.writeTop, [])] 3 0
-    ⟨[], [], []⟩ with | .done cfg => cfg.s | _ => []) = [13] := by decide
+    ⟨[], [], []⟩ with | .done cfg => cfg.s | _ => []) = [1013] := by decide
 
 example : (match run exSem [(.writePath ["y", "k"], ["s0", "s1"])] 1 0 ⟨[], [], []⟩ with
-    | .done cfg => cfg.s | _ => []) = [13] := by decide
+    | .done cfg => cfg.s | _ => []) = [1013] := by decide
 
 end Tera.C09
